@@ -67,17 +67,30 @@ class FStr:
                 return 'FValue'
         return None
 
+    def simple(self, e: ast.AST):
+        """Pieces of an expression that is a known variable, a tree field or escape_text(field); None otherwise."""
+        if isinstance(e, ast.Name):
+            if e.id in self.locals:
+                return list(self.locals[e.id])
+            if e.id in self.varmap:
+                return [('Var', self.varmap[e.id])]
+            return None
+        f = self.field(e)
+        if f is not None:
+            return [('Raw', f)]
+        if isinstance(e, ast.Call) and isinstance(e.func, ast.Name) and e.func.id == 'escape_text' \
+                and len(e.args) == 1 and not e.keywords and self.field(e.args[0]) is not None:
+            return [('Esc', self.field(e.args[0]))]
+        return None
+
     def pieces(self, node: ast.AST) -> list:
         if isinstance(node, ast.Constant) and isinstance(node.value, str):
             return [('Lit', node.value)] if node.value else []
-        if isinstance(node, ast.Name):
-            if node.id in self.locals:
-                return list(self.locals[node.id])
-            if node.id in self.varmap:
-                return [('Var', self.varmap[node.id])]
-            raise _err(node, f'string expression uses unknown name {node.id!r}')
         if not isinstance(node, ast.JoinedStr):
-            raise _err(node, f'written text is not an f-string/constant/known name: {ast.dump(node)[:80]}')
+            sp = self.simple(node)
+            if sp is None:
+                raise _err(node, f'written text is not an f-string/constant/known name/field: {ast.dump(node)[:80]}')
+            return sp
         out: list = []
         for v in node.values:
             if isinstance(v, ast.Constant) and isinstance(v.value, str):
@@ -89,19 +102,8 @@ class FStr:
             if v.conversion != -1 or v.format_spec is not None:
                 out.append(('Other', ast.dump(v)[:60]))
                 continue
-            e = v.value
-            if isinstance(e, ast.Name) and (e.id in self.locals or e.id in self.varmap):
-                out += self.pieces(e)
-                continue
-            f = self.field(e)
-            if f is not None:
-                out.append(('Raw', f))
-                continue
-            if isinstance(e, ast.Call) and isinstance(e.func, ast.Name) and e.func.id == 'escape_text' \
-                    and len(e.args) == 1 and not e.keywords and self.field(e.args[0]) is not None:
-                out.append(('Esc', self.field(e.args[0])))
-                continue
-            out.append(('Other', ast.dump(e)[:60]))
+            sp = self.simple(v.value)
+            out += sp if sp is not None else [('Other', ast.dump(v.value)[:60])]
         # merge adjacent literals
         merged: list = []
         for p in out:
